@@ -145,6 +145,12 @@ type event struct {
 	hdrs []sarama.RecordHeader
 }
 
+type seqAssign struct {
+	key   string
+	epoch int16
+	seq   int32
+}
+
 type icpt struct {
 	r     *rig
 	idx   int
@@ -169,6 +175,8 @@ type rig struct {
 	mu        sync.Mutex
 	events    []event
 	icptLog   []string
+	seqEpoch  int16
+	seqLog    []seqAssign
 	election  int // 0 not started, 1 partition 0 leaderless, 2 over
 	oldLeader int32
 	submitted int
@@ -210,6 +218,19 @@ func run(c *gx.Ctl, p *Params) *gx.Outcome {
 	// response; keep that window atomic (DESIGN.md §3.2 "urgent actors")
 	cl.UrgentMetadata = true
 	c.AutoRelease = func(site string) bool { return !p.Gates[site] }
+	// every sequence number the transaction manager hands out (observation hooks txn.epoch / txn.seq, called under its lock)
+	c.OnHit = func(site, key string, n int32) {
+		switch site {
+		case "txn.epoch":
+			r.mu.Lock()
+			r.seqEpoch = int16(n)
+			r.mu.Unlock()
+		case "txn.seq":
+			r.mu.Lock()
+			r.seqLog = append(r.seqLog, seqAssign{key: key, epoch: r.seqEpoch, seq: n})
+			r.mu.Unlock()
+		}
+	}
 
 	conf := sarama.NewConfig()
 	conf.Version = p.Version
